@@ -288,9 +288,7 @@ Proof.
     + rewrite L, (after_cons _ _ Nr), F7. exact Is.
     + rewrite L. simpl. split; [exact Il | exact I].
   - (* commit begin *)
-    constructor; cbn [fst snd]; try assumption.
-    + intros Pd. congruence.
-    + intros Pd. congruence.
+    constructor; cbn [fst snd]; assumption.
   - (* enqueue WaitStable waiter: read-only mode, phase AFTER *)
     pose proof (i4_ro _ _ I4 Hro) as Pa.
     constructor; cbn [fst snd]; try assumption; intros Pd; simpl in Pd; congruence.
